@@ -7,6 +7,12 @@ every explored path of the real front end must end either normally or in ppci's 
 CompilerError.  Any other exception (struct.error, KeyError, NotImplementedError, ZeroDivisionError,
 ValueError, AssertionError ...) is a violation, with the literal values as the model.
 
+Since the extension (props/_c28ext.py) the same claim is made for the C3 front end (ppci.api.c3_to_ir: lexer, parser,
+type checker, constant evaluation, code generator, verifier) and the textual-IR reader (ppci.irutils.reader.read_module),
+each followed by verify_module and ppci.api.optimize(level=2): template families over declaration kinds x operators x
+every integer TYPE, with every integer literal symbolic; diagnostics there are TaskError / CompilerError (c3_to_ir) and
+IrParseException / CompilerError (reader).
+
 Unlike C27/C26 there is NO definedness premise here: a program whose constant expression divides by
 zero or overflows is still syntactically valid C, and the property demands a diagnostic (or success),
 not an internal error.  The harness classes are those of props/C27.py and props/C26.py run in mode
@@ -15,25 +21,74 @@ not an internal error.  The harness classes are those of props/C27.py and props/
 import os
 import random
 from ref import csem
-from props import C27, C26
+from props import C27, C26, _c28ext
 from props.C27 import run_batch, batches
+from props._c28ext import mk_batch_c3, mk_batch_ir, mk_batch_irhex, C3LitHarness, IrLitHarness, IrHexHarness  # noqa: F401 (job factories, replay)
 
 PROPERTY = "C28"
 LEVEL = "model_checking"
+_C3_LIT = ("every integer literal 0 .. 2**64+1000 (beyond every integer type); in a template with a product / quotient / "
+           "remainder of two literals both 0 .. 2**32+1000 (0 .. 2**17+1000 on the 16-bit-int targets), of compound operands "
+           "(three literals) 0 .. 2**16+1000, with two of * / % (thorough) 0 .. 300; negative values arise through `L0 - L1`")
+_IR_LIT = ("every number -(2**64+1000) .. 2**64+1000; both constant operands of a folded * / % : -+(2**(bits+1)+1000), "
+           "at most -+(2**32+1000)")
 BOUNDS = {
     "quick": {"C constant expressions": C27.BOUNDS["quick"], "#if expressions": C26.BOUNDS["quick"],
-              "bit-field widths": "width = symbolic int literal (full range) for 6 storage types x {0,4} preceding bits; field loaded, stored, initialised"},
+              "bit-field widths": "width = symbolic int literal (full range) for 6 storage types x {0,4} preceding bits; field loaded, stored, initialised",
+              "C3 front end": {
+                  "entry": "ppci.api.c3_to_ir, then ppci.api.optimize(level=2), target x86_64 (+ msp430 for 6 templates)",
+                  "literal values": _C3_LIT,
+                  "templates": "405: constant declarations `const T x = L0 op L1` (10 operators, T = int, byte; casts to all 10 integer "
+                               "types; nested -, unary -, constants used as initialiser / return value / array size / case label); array "
+                               "sizes (global for all 10 element types, local, sizeof, struct member, size expressions, initialiser "
+                               "lists, 2 dimensions, typedef); array index literals (all 10 types); global initialisers of all 10 "
+                               "integer types (plain, cast, difference, array element, struct field, pointer); function bodies: "
+                               "parameter type x operator (10 operators for int, byte, int64_t, uint16_t; / << >> for the others) "
+                               "with a literal operand, local initialisers, returns, comparisons, compound assignments, call "
+                               "arguments, literal-only expressions and conditions, loops; switch on a value of each of the 10 types "
+                               "with literal case labels, case-label expressions"},
+              "textual IR": {
+                  "entry": "ppci.irutils.reader.read_module, then verify_module and ppci.api.optimize(level=2)",
+                  "numbers": _IR_LIT,
+                  "templates": "234 + 6: constants of i8..u64 and ptr (returned, negated, stored); constant op constant / parameter op "
+                               "constant / constant op parameter for the 10 binary operators (all for i32, u8, i64, u16; / % << >> for "
+                               "the others), constant chains; casts of constants; alloc size / alignment and blob<size:alignment> types; "
+                               "global / local variable size and alignment; blob parameter types; conditional jumps on two constants "
+                               "(6 conditions, i32 and u8) with phi; call arguments; `literal '<hex>'` data of 0,1,2,3,4,8 hex digits "
+                               "with every digit value symbolic"}},
     "thorough": {"C constant expressions": C27.BOUNDS["thorough"], "#if expressions": C26.BOUNDS["thorough"],
-                 "bit-field widths": "10 storage types x {0,1,4,7,9,31} preceding bits"},
+                 "bit-field widths": "10 storage types x {0,1,4,7,9,31} preceding bits",
+                 "C3 front end": {
+                     "entry": "as quick; targets x86_64, msp430 (16-bit int), or1k (big endian) for every template (one remainder shape not on msp430), arm / avr / riscv for 13 templates each",
+                     "literal values": _C3_LIT,
+                     "templates": "2215 (about 725 shapes x 3 targets + 39): the quick families with every operator and every integer type in "
+                                  "every position, + 46 depth-2 constant expressions over + - * / % (as constant, array size and case label)"},
+                 "textual IR": {
+                     "entry": "as quick", "numbers": _IR_LIT,
+                     "templates": "402 + 13: the quick families with every operator / condition for every integer type, all 56 constant casts; "
+                                  "`literal` data of 0..12 hex digits"}},
 }
 OUTSIDE = ["the structural quantifier of the property text ('every syntactically valid input'): only the stated template "
-           "families are examined, in the dimension of their integer literal values",
-           "C3 and textual-IR front ends, statements/expressions evaluated at run time, optimisation levels "
-           "(no symbolic value reaches an internal-error site there in these families)",
+           "families are examined, in the dimension of their integer literal values (and, for C3 / IR, of the integer types)",
+           "C: statements/expressions evaluated at run time, optimisation levels "
+           "(no symbolic value reaches an internal-error site there in the C families)",
            f"shift counts built from literals larger than {C27.SHIFT_COUNT_MAX} (Python big-integer shifts of that size are not modelled)"] \
-    + C27.OUTSIDE[:3]
-ASSUMPTIONS = ["'compiler diagnostic' = ppci.common.CompilerError (the class every front-end error() helper raises)",
-               "the template families and the literal instrumentation are those of props/C27.py and props/C26.py"]
+    + C27.OUTSIDE[:3] + [
+        "C3: floating-point and string literals, hexadecimal spelling (the value enters after the lexer's int()/make_num), "
+        "imports between modules, the machine-code back ends (c3c beyond optimize)",
+        "IR text: floating-point constants, ill-formed modules (the verifier reports those through assert by design: use before "
+        "definition, missing terminator ...), non-hexadecimal characters inside literal '...', the IR writer",
+        "optimisation passes beyond ppci.api.optimize(level=2)'s fixed pass list (level 0/1/s run a subset / the same list)"]
+ASSUMPTIONS = ["'compiler diagnostic' = ppci.common.CompilerError (the class every front-end error() helper raises); for "
+               "c3_to_ir also ppci.build.tasks.TaskError (the documented way it reports every CompilerError), for the IR "
+               "reader also ppci.irutils.reader.IrParseException (raised by its error() helper)",
+               "the template families and the literal instrumentation are those of props/C27.py and props/C26.py; C3: the "
+               "symbolic value replaces the token value where Parser.parse_primary_expression builds ast.Literal; IR text: "
+               "where Reader.parse_integer / parse_number hand out the INT token value; the uninstrumented concrete re-run "
+               "of every path validates this",
+               "symbolic C3 / IR runs: identity-hashed IR objects get per-run sequence numbers as hash values (deterministic "
+               "set order for path re-execution), plain int values of ir.Const / BlobDataTyp keys are wrapped as constant "
+               "proxies so that dict look-ups against symbolic keys compare by value; `type(x)` of a proxy is int / bool"]
 SHIMS_USED = ["isinstance", "int", "struct", "bool", "range"]
 JOB_TIMEOUT = {"quick": 600, "thorough": 1700}
 TASKS_PER_CHILD = 4
@@ -95,4 +150,5 @@ def jobs(tier, seed):
     nb = 32 if tier == "quick" else 120
     js = [("mk_batch_c", dict(specs=b, tag=f"c#{i}")) for i, b in enumerate(batches(c, nb))]
     js += [("mk_batch_pp", dict(specs=b, tag=f"pp#{i}")) for i, b in enumerate(batches(pp, nb // 2, key=1))]
+    js += _c28ext.ext_jobs(tier, seed)
     return js
